@@ -116,6 +116,23 @@ fn err_code(e: &Error) -> String {
     }
 }
 
+// ---------- accessor guard ----------
+// An accessor that panics inside a callback must not hide the rest of the callback sequence:
+// the field is recorded as 18446744073709551615 ("P"), ACC_PANIC is raised (reported as x_accpanic=1,
+// a C01 violation) and the visit goes on.
+static ACC_PANIC: AtomicBool = AtomicBool::new(false);
+fn guard<T>(default: T, f: impl FnOnce() -> T) -> T {
+    match catch_unwind(AssertUnwindSafe(f)) {
+        Ok(v) => v,
+        Err(_) => {
+            ARMED.store(false, Ordering::Relaxed);
+            ACC_PANIC.store(true, Ordering::Relaxed);
+            default
+        }
+    }
+}
+const PW: &str = "18446744073709551615,18446744073709551615";
+
 // ---------- recording visitor ----------
 #[derive(Clone, Debug, PartialEq)]
 enum Ev {
@@ -191,18 +208,19 @@ impl<'i> Visitor for Rec<'i> {
         }
     }
     fn visit_transaction(&mut self, tx: &bsl::Transaction) -> ControlFlow<()> {
-        let (a, b, c) = tx.txid_preimage();
+        let empty: &[u8] = &[];
+        let (a, b, c) = guard((empty, empty, empty), || tx.txid_preimage());
         self.toks.push(format!(
             "10,{},{},{},{},{},{},{}",
             ws(self.base, tx.as_ref()),
-            tx.version() as u32,
-            tx.locktime(),
+            guard(u32::MAX, || tx.version() as u32),
+            guard(u32::MAX, || tx.locktime()),
             pws(self.base, a),
             pws(self.base, b),
             pws(self.base, c),
-            tx.weight()
+            guard(u64::MAX, || tx.weight())
         ));
-        if self.structured {
+        if self.structured && !ACC_PANIC.load(Ordering::Relaxed) {
             let mut pre = a.to_vec();
             pre.extend_from_slice(b);
             pre.extend_from_slice(c);
@@ -225,22 +243,23 @@ impl<'i> Visitor for Rec<'i> {
         }
     }
     fn visit_tx_in(&mut self, vin: usize, t: &bsl::TxIn) -> ControlFlow<()> {
+        let base = self.base;
         self.toks.push(format!(
             "3,{},{},{},{},{},{},{}",
             vin,
             ws(self.base, t.as_ref()),
             ws(self.base, t.prevout().as_ref()),
-            ws(self.base, t.prevout().txid()),
-            t.prevout().vout(),
-            ws(self.base, t.script_sig()),
+            guard(PW.to_string(), || ws(base, t.prevout().txid())),
+            guard(u32::MAX, || t.prevout().vout()),
+            guard(PW.to_string(), || ws(base, t.script_sig())),
             t.sequence()
         ));
         if self.structured {
             self.evs.push(Ev::TxIn {
                 i: vin as u64,
-                txid: t.prevout().txid().to_vec(),
-                vout: t.prevout().vout(),
-                sig: t.script_sig().to_vec(),
+                txid: guard(vec![], || t.prevout().txid().to_vec()),
+                vout: guard(u32::MAX, || t.prevout().vout()),
+                sig: guard(vec![], || t.script_sig().to_vec()),
                 seq: t.sequence(),
             });
         }
@@ -253,9 +272,11 @@ impl<'i> Visitor for Rec<'i> {
         }
     }
     fn visit_tx_out(&mut self, vout: usize, t: &bsl::TxOut) -> ControlFlow<()> {
-        self.toks.push(format!("5,{},{},{},{}", vout, ws(self.base, t.as_ref()), t.value(), ws(self.base, t.script_pubkey())));
+        let base = self.base;
+        let spkw = guard(PW.to_string(), || ws(base, t.script_pubkey()));
+        self.toks.push(format!("5,{},{},{},{}", vout, ws(self.base, t.as_ref()), t.value(), spkw));
         if self.structured {
-            self.evs.push(Ev::TxOut { i: vout as u64, value: t.value(), spk: t.script_pubkey().to_vec() });
+            self.evs.push(Ev::TxOut { i: vout as u64, value: t.value(), spk: guard(vec![], || t.script_pubkey().to_vec()) });
         }
         self.flow()
     }
@@ -722,13 +743,13 @@ fn run_txins(inp: &[u8], brk: i64) -> String {
     let mut rec = Rec::new(inp, brk, brk < 0);
     let r = bsl::TxIns::visit(inp, &mut rec);
     let mut s = match &r {
-        Ok(p) => {
+        Ok(p) => guard(format!("{}{}", common(inp, p.parsed().as_ref(), p.remaining()), rec.events()), || {
             let x = p.parsed();
             format!("{} n={} empty={}{}", common(inp, x.as_ref(), p.remaining()), x.n(), x.is_empty() as u8, rec.events())
-        }
+        }),
         Err(e) => format!("{}{}", res_err(e), rec.events()),
     };
-    s.push_str(&visit_x_tokens!(bsl::TxIns, inp, rec, r, brk));
+    s.push_str(&guard(String::new(), || visit_x_tokens!(bsl::TxIns, inp, rec, r, brk)));
     if brk < 0 {
         let (_, cur) = dec_txs(&rec.evs);
         s.push_str(&rb_tokens::<Vec<bitcoin::TxIn>>(inp, r.as_ref().ok().map(|p| p.consumed()), |v| {
@@ -748,7 +769,7 @@ fn run_txouts(inp: &[u8], brk: i64) -> String {
     let mut rec = Rec::new(inp, brk, brk < 0);
     let r = bsl::TxOuts::visit(inp, &mut rec);
     let mut s = match &r {
-        Ok(p) => {
+        Ok(p) => guard(format!("{}{}", common(inp, p.parsed().as_ref(), p.remaining()), rec.events()), || {
             let x = p.parsed();
             let mut s = format!("{} n={} empty={}", common(inp, x.as_ref(), p.remaining()), x.n(), x.is_empty() as u8);
             // iterator (C17)
@@ -781,10 +802,10 @@ fn run_txouts(inp: &[u8], brk: i64) -> String {
             let fb = <bsl::TxOuts as RedbValue>::from_bytes(ab);
             write!(s, " x_db={},{},{}", same as u8, (fb == *x) as u8, <bsl::TxOuts as RedbValue>::fixed_width().map(|v| v as i64).unwrap_or(-1)).unwrap();
             s
-        }
+        }),
         Err(e) => format!("{}{}", res_err(e), rec.events()),
     };
-    s.push_str(&visit_x_tokens!(bsl::TxOuts, inp, rec, r, brk));
+    s.push_str(&guard(String::new(), || visit_x_tokens!(bsl::TxOuts, inp, rec, r, brk)));
     if brk < 0 {
         let (_, cur) = dec_txs(&rec.evs);
         s.push_str(&rb_tokens::<Vec<bitcoin::TxOut>>(inp, r.as_ref().ok().map(|p| p.consumed()), |v| {
@@ -802,10 +823,10 @@ fn run_witness(inp: &[u8], brk: i64) -> String {
     let mut rec = Rec::new(inp, brk, brk < 0);
     let r = bsl::Witness::visit(inp, &mut rec);
     let mut s = match &r {
-        Ok(p) => format!("{} empty={}{}", common(inp, p.parsed().as_ref(), p.remaining()), p.parsed().is_empty() as u8, rec.events()),
+        Ok(p) => guard(format!("{}{}", common(inp, p.parsed().as_ref(), p.remaining()), rec.events()), || format!("{} empty={}{}", common(inp, p.parsed().as_ref(), p.remaining()), p.parsed().is_empty() as u8, rec.events())),
         Err(e) => format!("{}{}", res_err(e), rec.events()),
     };
-    s.push_str(&visit_x_tokens!(bsl::Witness, inp, rec, r, brk));
+    s.push_str(&guard(String::new(), || visit_x_tokens!(bsl::Witness, inp, rec, r, brk)));
     if brk < 0 {
         let (_, cur) = dec_txs(&rec.evs);
         s.push_str(&rb_tokens::<bitcoin::Witness>(inp, r.as_ref().ok().map(|p| p.consumed()), |v| {
@@ -856,7 +877,7 @@ fn run_transaction(inp: &[u8], brk: i64) -> String {
     let mut rec = Rec::new(inp, brk, brk < 0);
     let r = bsl::Transaction::visit(inp, &mut rec);
     let mut s = match &r {
-        Ok(p) => {
+        Ok(p) => guard(format!("{}{}", common(inp, p.parsed().as_ref(), p.remaining()), rec.events()), || {
             let x = p.parsed();
             let mut s = format!("{} {}{}", common(inp, x.as_ref(), p.remaining()), tx_fields(inp, x), rec.events());
             write!(s, " x_txid={} x_txid_sha2={}", hex(&x.txid().to_byte_array()), hex(&x.txid_sha2())).unwrap();
@@ -871,10 +892,10 @@ fn run_transaction(inp: &[u8], brk: i64) -> String {
             write!(s, " x_dbtx={},{},{}", (fb.weight() == x.weight()) as u8, (fb.txid_preimage() == x.txid_preimage()) as u8,
                    (fb.txid() == x.txid() && fb.txid_sha2() == x.txid_sha2()) as u8).unwrap();
             s
-        }
+        }),
         Err(e) => format!("{}{}", res_err(e), rec.events()),
     };
-    s.push_str(&visit_x_tokens!(bsl::Transaction, inp, rec, r, brk));
+    s.push_str(&guard(String::new(), || visit_x_tokens!(bsl::Transaction, inp, rec, r, brk)));
     if brk < 0 {
         let (done, _) = dec_txs(&rec.evs);
         s.push_str(&rb_tokens::<bitcoin::Transaction>(inp, r.as_ref().ok().map(|p| p.consumed()), |t| {
@@ -903,15 +924,15 @@ fn run_header(inp: &[u8], brk: i64) -> String {
     let mut rec = Rec::new(inp, brk, false);
     let r = bsl::BlockHeader::visit(inp, &mut rec);
     let mut s = match &r {
-        Ok(p) => {
+        Ok(p) => guard(format!("{}{}", common(inp, p.parsed().as_ref(), p.remaining()), rec.events()), || {
             let x = p.parsed();
             let mut s = format!("{} {}{}", common(inp, x.as_ref(), p.remaining()), header_fields(inp, x), rec.events());
             write!(s, " x_blockhash={} x_blockhash_sha2={} x_bhpre={}", hex(&x.block_hash().to_byte_array()), hex(&x.block_hash_sha2()), ws(inp, x.block_hash_preimage())).unwrap();
             s
-        }
+        }),
         Err(e) => format!("{}{}", res_err(e), rec.events()),
     };
-    s.push_str(&visit_x_tokens!(bsl::BlockHeader, inp, rec, r, brk));
+    s.push_str(&guard(String::new(), || visit_x_tokens!(bsl::BlockHeader, inp, rec, r, brk)));
     if brk < 0 {
         s.push_str(&rb_tokens::<bitcoin::block::Header>(inp, r.as_ref().ok().map(|p| p.consumed()), |h| cmp_header(inp, r.as_ref().unwrap().parsed(), h)));
     }
@@ -933,15 +954,15 @@ fn run_block(inp: &[u8], brk: i64) -> String {
     let mut rec = Rec::new(inp, brk, brk < 0);
     let r = bsl::Block::visit(inp, &mut rec);
     let mut s = match &r {
-        Ok(p) => {
+        Ok(p) => guard(format!("{}{}", common(inp, p.parsed().as_ref(), p.remaining()), rec.events()), || {
             let x = p.parsed();
             let mut s = format!("{} total={} {}{}", common(inp, x.as_ref(), p.remaining()), x.total_transactions(), header_fields(inp, x.header()), rec.events());
             write!(s, " x_blockhash={} x_blockhash_sha2={}", hex(&x.block_hash().to_byte_array()), hex(&x.block_hash_sha2())).unwrap();
             s
-        }
+        }),
         Err(e) => format!("{}{}", res_err(e), rec.events()),
     };
-    s.push_str(&visit_x_tokens!(bsl::Block, inp, rec, r, brk));
+    s.push_str(&guard(String::new(), || visit_x_tokens!(bsl::Block, inp, rec, r, brk)));
     if brk < 0 {
         let (done, _) = dec_txs(&rec.evs);
         let mut found = String::new();
@@ -1122,9 +1143,11 @@ fn main() {
                 let inp = unhex(f[3]);
                 let param: u64 = f[4].parse().unwrap();
                 let brk: i64 = f[5].parse().unwrap();
+                ACC_PANIC.store(false, Ordering::Relaxed);
                 let r = catch_unwind(AssertUnwindSafe(|| run_case(f[2], &inp, param, brk)));
                 ARMED.store(false, Ordering::Relaxed);
                 match r {
+                    Ok(s) if ACC_PANIC.load(Ordering::Relaxed) => writeln!(out, "{} {} x_accpanic=1", id, s).unwrap(),
                     Ok(s) => writeln!(out, "{} {}", id, s).unwrap(),
                     Err(_) => writeln!(out, "{} res=2", id).unwrap(),
                 }
